@@ -298,6 +298,9 @@ impl<T: Prim> Spec for Mirror<T> {
             _ => k.put(&&x),
         }
     }
+    fn push_read<'a, K: Sink<Self::R>>(k: &mut K, item: RI<'a, Self>) -> K::Out {
+        k.put(item)
+    }
     fn push_all_via<K: BatchSink<Self::R>>(k: &mut K, vs: &[T::V], f: &mut Forms) {
         let xs: Vec<T> = vs.iter().map(T::from_v).collect();
         match f.pick("Mirror(batch)", &["&T", "T"]) {
@@ -488,6 +491,9 @@ where
                 k.put(tmp.index(i))
             }
         }
+    }
+    fn push_read<'a, K: Sink<Self::R>>(k: &mut K, item: RI<'a, Self>) -> K::Out {
+        k.put(item)
     }
     fn push_all_via<K: BatchSink<Self::R>>(k: &mut K, vs: &[String], f: &mut Forms) {
         match f.pick("Str(batch)", &["&String", "String", "&str"]) {
@@ -733,6 +739,9 @@ impl<T: Elem> Spec for Owned<T> {
             }
         }
     }
+    fn push_read<'a, K: Sink<Self::R>>(k: &mut K, item: RI<'a, Self>) -> K::Out {
+        k.put(item)
+    }
     fn push_all_via<K: BatchSink<Self::R>>(k: &mut K, vs: &[Vec<T>], f: &mut Forms) {
         match f.pick("Owned(batch)", &["&Vec<T>", "Vec<T>", "&[T]"]) {
             0 => k.put_all(vs.iter()),
@@ -876,6 +885,9 @@ impl Spec for OwnedZst {
             }
         }
     }
+    fn push_read<'a, K: Sink<Self::R>>(k: &mut K, item: RI<'a, Self>) -> K::Out {
+        k.put(item)
+    }
     fn push_all_via<K: BatchSink<Self::R>>(k: &mut K, vs: &[u64], f: &mut Forms) {
         let os: Vec<Vec<()>> = vs.iter().map(|v| zst_vec(*v)).collect();
         match f.pick("Owned<()>(batch)", &["&Vec<T>", "Vec<T>"]) {
@@ -954,6 +966,9 @@ impl<T: Elem> Spec for VecR<T> {
             1 => k.put(v.clone()),
             _ => k.put(&v),
         }
+    }
+    fn push_read<'a, K: Sink<Self::R>>(k: &mut K, item: RI<'a, Self>) -> K::Out {
+        k.put(item)
     }
     fn push_all_via<K: BatchSink<Self::R>>(k: &mut K, vs: &[T], f: &mut Forms) {
         match f.pick("VecRegion(batch)", &["&T", "T"]) {
@@ -1041,6 +1056,9 @@ impl Spec for CodecDict {
                 k.put(tmp.index(i))
             }
         }
+    }
+    fn push_read<'a, K: Sink<Self::R>>(k: &mut K, item: RI<'a, Self>) -> K::Out {
+        k.put(item)
     }
     fn push_all_via<K: BatchSink<Self::R>>(k: &mut K, vs: &[Vec<u8>], _f: &mut Forms) {
         k.put_all(vs.iter().map(|v| v.as_slice()))
@@ -1132,6 +1150,9 @@ impl Spec for CodecPrefix {
     }
     fn push_via<K: Sink<Self::R>>(k: &mut K, v: &Vec<u8>, _f: &mut Forms) -> K::Out {
         k.put(v.as_slice())
+    }
+    fn push_read<'a, K: Sink<Self::R>>(k: &mut K, item: RI<'a, Self>) -> K::Out {
+        k.put(item)
     }
     fn push_all_via<K: BatchSink<Self::R>>(k: &mut K, vs: &[Vec<u8>], _f: &mut Forms) {
         k.put_all(vs.iter().map(|v| v.as_slice()))
@@ -1243,6 +1264,9 @@ impl<B: Sym> Spec for Huff<B> {
                 k.put(b)
             }
         }
+    }
+    fn push_read<'a, K: Sink<Self::R>>(k: &mut K, item: RI<'a, Self>) -> K::Out {
+        k.put(item)
     }
     fn push_all_via<K: BatchSink<Self::R>>(k: &mut K, vs: &[Vec<B>], f: &mut Forms) {
         match f.pick("Huffman(batch)", &["&Vec<B>", "Vec<B>"]) {
